@@ -33,7 +33,16 @@ impl SwiftField for Field76 {
         let mut lines = Vec::new();
 
         // Parse up to 6 lines of 35 characters each
-        for line in input.lines().take(6) {
+        let content = super::field_utils::content_lines(input, "Field 76")?;
+        if content.len() > 6 {
+            return Err(ParseError::InvalidFormat {
+                message: format!(
+                    "Field 76 cannot have more than 6 lines, found {}",
+                    content.len()
+                ),
+            });
+        }
+        for line in content {
             // Validate line length (max 35 characters)
             if line.len() > 35 {
                 return Err(ParseError::InvalidFormat {
